@@ -13,7 +13,7 @@
 (* (non-integer coefficients in the factor table, unprojectable constants)   *)
 (* answer "unmodelled" and are excluded from both uses.                      *)
 (***************************************************************************)
-EXTENDS Rules
+EXTENDS Rules, BigRat
 
 RECURSIVE ReplaceAt(_,_,_)
 ReplaceAt(t, path, u) ==
@@ -123,6 +123,14 @@ OutFold(t, p) ==
       [] ft[1] = "chained_right_left" -> B("mul", B("mul", prod, n.l.r), n.r.r)
       [] ft[1] = "chained_right_left_left" -> B("mul", B("mul", prod, n.l.r), B("mul", n.r.l.r, n.r.r))
       [] ft[1] = "chained_left_left_right" -> B("mul", n.l.l, B("mul", B("mul", prod, n.l.r.r), n.r.r)))
+
+\* the exact value of the constant a fold creates, for constants of any magnitude (big rationals); BadQ when not computable
+FoldExact(t, p) ==
+  LET n == TermAt(t, p)  ft == FoldType(n) IN
+  IF ft[1] = "none" THEN BadQ ELSE
+  LET k == IF ft[1] = "negation_simple" THEN n.c.k ELSE IF ft[1] = "simple" THEN n.k ELSE IF n.k = "add" THEN "add" ELSE "mul"
+      v == OpBQ(k, ConstBQ(ft[2]), ConstBQ(ft[3])) IN
+  IF ~v.ok THEN BadQ ELSE IF ft[1] = "negation_simple" THEN BQ(BNeg(v.n), v.d) ELSE v
 
 (* ---------------- distribute ---------------- *)
 CanDist(t, p) == LET n == TermAt(t, p) IN n.k = "mul" /\ (n.l.k = "add" \/ n.r.k = "add")
